@@ -1,8 +1,470 @@
-//! Seeded structure-aware mutation driver (stub)
-use vh_core::Args;
+//! Seeded structure-aware mutation driver over the honest encodings of every wire type:
+//! bit flips, byte sets, truncation, extension, length inflation (legacy field map, CBOR
+//! headers, bincode varints, raw u64 windows), splices, over-long / short serde sequences
+//! (CBOR and JSON), JSON type / range / nesting changes, hex-level corruption, message
+//! document mutations, deeply nested Merkle map proofs.
+use mithril_common::crypto_helper::{MKProof, TryToBytes};
+use vh_core::{Args, ChaCha20Rng, RngCore, Value, below, json};
 
-use super::{Ctx, Task};
+use super::{Ctx, Payload, Task};
+use crate::honest::{MapProof, Meta};
 
-pub fn generate(_c: &Ctx, _args: &Args, _seed: u64) -> Vec<Task> {
-    vec![]
+const HUGE: [u64; 14] = [
+    1 << 16,
+    (1 << 32) - 1,
+    1 << 32,
+    1 << 40,
+    1 << 48,
+    1 << 56,
+    (1 << 56) + 1,
+    1 << 62,
+    (1 << 63) - 1,
+    1 << 63,
+    (1 << 63) + 1,
+    u64::MAX - 16,
+    u64::MAX - 8,
+    u64::MAX,
+];
+
+fn pick_huge(r: &mut ChaCha20Rng, len: usize) -> u64 {
+    match below(r, 6) {
+        0 => len as u64 + below(r, 3),
+        1 => u64::MAX - below(r, 40),
+        2 => (len as u64).wrapping_mul(1 + below(r, 8)),
+        _ => HUGE[below(r, HUGE.len() as u64) as usize],
+    }
+}
+
+fn bin_mutation(r: &mut ChaCha20Rng, cls: &str, enc: &crate::honest::Enc, pool: &[Vec<u8>]) -> Option<Vec<u8>> {
+    let mut b = enc.bytes.clone();
+    let n = b.len();
+    if n == 0 {
+        return None;
+    }
+    match cls {
+        "bitflip" => {
+            for _ in 0..1 + below(r, 3) {
+                let p = below(r, n as u64) as usize;
+                b[p] ^= 1 << below(r, 8);
+            }
+        }
+        "byteset" => {
+            let p = below(r, n as u64) as usize;
+            b[p] = [0u8, 1, 0xff, 0x7f, 0x80, 0x9b, 0xfd][below(r, 7) as usize];
+        }
+        "truncate" => b.truncate(below(r, n as u64) as usize),
+        "extend" => {
+            for _ in 0..1 + below(r, 16) {
+                b.push(r.next_u32() as u8);
+            }
+        }
+        "inflate_field" => {
+            // structure-aware: a real length / count field of the legacy layout
+            let lay = enc.lay.as_ref()?;
+            if lay.fields.is_empty() {
+                return None;
+            }
+            for _ in 0..1 + below(r, 2) {
+                let (_, off) = &lay.fields[below(r, lay.fields.len() as u64) as usize];
+                let v = pick_huge(r, n);
+                b[*off..*off + 8].copy_from_slice(&v.to_be_bytes());
+            }
+        }
+        "inflate_u64" => {
+            if n < 8 {
+                return None;
+            }
+            let p = below(r, (n - 7) as u64) as usize;
+            let v = pick_huge(r, n);
+            let w = if below(r, 2) == 0 { v.to_be_bytes() } else { v.to_le_bytes() };
+            b[p..p + 8].copy_from_slice(&w);
+        }
+        "inflate_cbor" => {
+            // a CBOR array / bytes / text / map header gets an 8-byte (or 4-byte) huge length
+            let heads: Vec<usize> = (0..n)
+                .filter(|&i| {
+                    let m = b[i] >> 5;
+                    let a = b[i] & 0x1f;
+                    (2..=5).contains(&m) && a <= 27
+                })
+                .collect();
+            if heads.is_empty() {
+                return None;
+            }
+            let p = heads[below(r, heads.len() as u64) as usize];
+            let major = b[p] & 0xe0;
+            let extra = match b[p] & 0x1f {
+                24 => 1,
+                25 => 2,
+                26 => 4,
+                27 => 8,
+                _ => 0,
+            };
+            let mut nb = b[..p].to_vec();
+            if below(r, 3) == 0 {
+                nb.push(major | 26);
+                nb.extend_from_slice(&(pick_huge(r, n) as u32).to_be_bytes());
+            } else {
+                nb.push(major | 27);
+                nb.extend_from_slice(&pick_huge(r, n).to_be_bytes());
+            }
+            nb.extend_from_slice(&b[(p + 1 + extra).min(n)..]);
+            b = nb;
+        }
+        "inflate_bincode" => {
+            // bincode varint: 0xfd = u64 follows, 0xfc = u32 follows, 0xfb = u16 follows
+            let p = below(r, n as u64) as usize;
+            let mut nb = b[..p].to_vec();
+            match below(r, 3) {
+                0 => {
+                    nb.push(0xfd);
+                    nb.extend_from_slice(&pick_huge(r, n).to_le_bytes());
+                }
+                1 => {
+                    nb.push(0xfc);
+                    nb.extend_from_slice(&(pick_huge(r, n) as u32).to_le_bytes());
+                }
+                _ => {
+                    nb.push(0xfb);
+                    nb.extend_from_slice(&(pick_huge(r, n) as u16).to_le_bytes());
+                }
+            }
+            nb.extend_from_slice(&b[p + 1..]);
+            b = nb;
+        }
+        "overlong_cbor" | "short_cbor" => {
+            // serde sequences of fixed size (sigma 48, keys 96, hashes 32 ...): one element more / less
+            let heads: Vec<usize> =
+                (0..n.saturating_sub(1)).filter(|&i| b[i] == 0x98 && [32u8, 48, 96, 64, 192].contains(&b[i + 1])).collect();
+            if heads.is_empty() {
+                return None;
+            }
+            let p = heads[below(r, heads.len() as u64) as usize];
+            if cls == "overlong_cbor" {
+                let extra = 1 + below(r, 3) as u8;
+                b[p + 1] += extra;
+                for _ in 0..extra {
+                    b.insert(p + 2, 0);
+                }
+            } else {
+                b[p + 1] -= 1;
+                let rm = if b[p + 2] == 0x18 { 2 } else { 1 };
+                for _ in 0..rm {
+                    b.remove(p + 2);
+                }
+            }
+        }
+        "splice" => {
+            let other = &pool[below(r, pool.len() as u64) as usize];
+            let a = below(r, n as u64 + 1) as usize;
+            let c = below(r, other.len() as u64 + 1) as usize;
+            b.truncate(a);
+            b.extend_from_slice(&other[c..]);
+        }
+        "chunk" => {
+            let l = 1 + below(r, 16.min(n as u64)) as usize;
+            let s = below(r, (n - l + 1) as u64) as usize;
+            let d = below(r, (n - l + 1) as u64) as usize;
+            let chunk = b[s..s + l].to_vec();
+            b[d..d + l].copy_from_slice(&chunk);
+        }
+        _ => return None,
+    }
+    (b != enc.bytes).then_some(b)
+}
+
+// ---- JSON ---------------------------------------------------------------------------------
+fn paths(v: &Value, cur: &mut Vec<String>, out: &mut Vec<Vec<String>>) {
+    out.push(cur.clone());
+    match v {
+        Value::Array(a) => {
+            // byte arrays: visit a few elements only
+            let numeric = a.len() > 8 && a.iter().all(|x| x.is_number());
+            for (i, x) in a.iter().enumerate() {
+                if numeric && i % 17 != 0 {
+                    continue;
+                }
+                cur.push(i.to_string());
+                paths(x, cur, out);
+                cur.pop();
+            }
+        }
+        Value::Object(o) => {
+            for (k, x) in o {
+                cur.push(k.clone());
+                paths(x, cur, out);
+                cur.pop();
+            }
+        }
+        _ => {}
+    }
+}
+
+fn at<'a>(v: &'a mut Value, p: &[String]) -> &'a mut Value {
+    let mut cur = v;
+    for seg in p {
+        cur = match seg.parse::<usize>() {
+            Ok(i) if cur.is_array() => &mut cur[i],
+            _ => &mut cur[seg.as_str()],
+        };
+    }
+    cur
+}
+
+fn nest(depth: usize) -> Value {
+    let mut v = json!(0);
+    for _ in 0..depth {
+        v = json!([v]);
+    }
+    v
+}
+
+fn json_mutation(r: &mut ChaCha20Rng, cls: &str, doc: &Value) -> Option<String> {
+    let mut d = doc.clone();
+    let mut all = vec![];
+    paths(doc, &mut vec![], &mut all);
+    let arrays: Vec<&Vec<String>> = all
+        .iter()
+        .filter(|p| {
+            let mut c = doc;
+            for s in p.iter() {
+                c = match s.parse::<usize>() {
+                    Ok(i) if c.is_array() => &c[i],
+                    _ => &c[s.as_str()],
+                };
+            }
+            c.as_array().map(|a| !a.is_empty() && a.iter().all(|x| x.is_number())).unwrap_or(false)
+        })
+        .collect();
+    let pick = |r: &mut ChaCha20Rng, v: &Vec<Vec<String>>| v[below(r, v.len() as u64) as usize].clone();
+    match cls {
+        "overlong_seq" => {
+            if arrays.is_empty() {
+                return None;
+            }
+            let p = arrays[below(r, arrays.len() as u64) as usize].clone();
+            let a = at(&mut d, &p).as_array_mut().unwrap();
+            let extra = [1usize, 1, 2, 1000][below(r, 4) as usize];
+            for _ in 0..extra {
+                a.push(json!(0));
+            }
+        }
+        "short_seq" => {
+            if arrays.is_empty() {
+                return None;
+            }
+            let p = arrays[below(r, arrays.len() as u64) as usize].clone();
+            let a = at(&mut d, &p).as_array_mut().unwrap();
+            a.pop();
+        }
+        "byte_range" => {
+            if arrays.is_empty() {
+                return None;
+            }
+            let p = arrays[below(r, arrays.len() as u64) as usize].clone();
+            let a = at(&mut d, &p).as_array_mut().unwrap();
+            let i = below(r, a.len() as u64) as usize;
+            a[i] = [json!(256), json!(-1), json!(1.5), json!(u64::MAX), json!("7")][below(r, 5) as usize].clone();
+        }
+        "num_huge" => {
+            let nums: Vec<Vec<String>> = all
+                .iter()
+                .filter(|p| {
+                    let mut c = doc;
+                    for s in p.iter() {
+                        c = match s.parse::<usize>() {
+                            Ok(i) if c.is_array() => &c[i],
+                            _ => &c[s.as_str()],
+                        };
+                    }
+                    c.is_number()
+                })
+                .cloned()
+                .collect();
+            if nums.is_empty() {
+                return None;
+            }
+            let p = pick(r, &nums);
+            *at(&mut d, &p) = json!("__NUM__");
+            let lit = ["18446744073709551616", "-1", "1e400", "1.5", "18446744073709551615", "9223372036854775808", "-9223372036854775809"]
+                [below(r, 7) as usize];
+            return Some(serde_json::to_string(&d).unwrap().replacen("\"__NUM__\"", lit, 1));
+        }
+        "type_swap" => {
+            let p = pick(r, &all);
+            *at(&mut d, &p) =
+                [json!(null), json!("str"), json!({}), json!([]), json!(true), json!(0), json!([[]]), json!({"a": {"b": []}})]
+                    [below(r, 8) as usize]
+                    .clone();
+        }
+        "drop_key" => {
+            let objs: Vec<Vec<String>> = all.iter().filter(|p| !p.is_empty() && p.last().unwrap().parse::<usize>().is_err()).cloned().collect();
+            if objs.is_empty() {
+                return None;
+            }
+            let p = pick(r, &objs);
+            let (last, parent) = p.split_last().unwrap();
+            at(&mut d, parent).as_object_mut()?.remove(last);
+        }
+        "deep_nest" => {
+            let p = pick(r, &all);
+            *at(&mut d, &p) = nest([100usize, 127, 128, 129, 1000][below(r, 5) as usize]);
+        }
+        "long_array" => {
+            let p = pick(r, &all);
+            *at(&mut d, &p) = json!(vec![0u8; [1000usize, 65536, 300000][below(r, 3) as usize]]);
+        }
+        "json_text" => {
+            let mut t = serde_json::to_string(&d).unwrap().into_bytes();
+            match below(r, 3) {
+                0 => t.truncate(below(r, t.len() as u64) as usize),
+                1 => {
+                    let p = below(r, t.len() as u64) as usize;
+                    t[p] = b"{}[],:\"0e-x"[below(r, 11) as usize];
+                }
+                _ => {
+                    let p = below(r, t.len() as u64) as usize;
+                    t.insert(p, b"{}[],:\"0"[below(r, 8) as usize]);
+                }
+            }
+            return String::from_utf8(t).ok();
+        }
+        _ => return None,
+    }
+    (d != *doc).then(|| serde_json::to_string(&d).unwrap())
+}
+
+fn text_mutation(r: &mut ChaCha20Rng, s: &str) -> String {
+    let mut t = s.to_string();
+    match below(r, 9) {
+        0 => {
+            t.pop();
+        }
+        1 => {
+            let p = below(r, t.len().max(1) as u64) as usize;
+            t.replace_range(p..(p + 1).min(t.len()), ["g", "Z", " ", "\"", "\\", "é"][below(r, 6) as usize]);
+        }
+        2 => t = t.to_uppercase(),
+        3 => t = format!(" {t}\n"),
+        4 => t = format!("0x{t}"),
+        5 => t = String::new(),
+        6 => t = "0".repeat([1usize, 7, 100_001][below(r, 3) as usize]),
+        7 => t.push_str("00"),
+        _ => t = t.chars().rev().collect(),
+    }
+    t
+}
+
+/// bincode bytes of a Merkle map proof nested `depth` times inside (minimal) map proofs
+pub fn nested_map_proof(c: &Ctx, depth: usize) -> Option<Vec<u8>> {
+    let hi = c.store.find("mkmapproof0")?;
+    let m: &Meta = &c.store.meta[hi];
+    let honest = &m.encs.iter().find(|e| e.codec == "bincode")?.bytes;
+    // honest = M0 ++ [1] ++ K ++ SUB where M0 ++ [0] encodes the master proof alone
+    let master: MKProof = serde_json::from_value(m.json["master_proof"].clone()).ok()?;
+    let m0 = MapProof::from(master).to_bytes_vec().ok()?;
+    let sub: MapProof = serde_json::from_value(m.json["sub_proofs"][0][1].clone()).ok()?;
+    let sub = sub.to_bytes_vec().ok()?;
+    let k = honest[m0.len()..honest.len() - sub.len()].to_vec();
+    // minimal master proof: empty root, no leaves, size 0, no items
+    let minimal = vec![0u8, 0, 0, 0];
+    let mut out = vec![];
+    for _ in 0..depth {
+        out.extend_from_slice(&minimal);
+        out.push(1);
+        out.extend_from_slice(&k);
+    }
+    out.extend_from_slice(honest);
+    Some(out)
+}
+
+pub fn generate(c: &Ctx, args: &Args, seed: u64) -> Vec<Task> {
+    let per = args.num("per", 2);
+    let mut r = vh_core::rng(seed, 5050);
+    let mut tasks = vec![];
+    let mut case = 0u64;
+    let pool: Vec<Vec<u8>> =
+        c.store.meta.iter().flat_map(|m| m.encs.iter().filter(|e| e.codec != "json").map(|e| e.bytes.clone())).collect();
+    let bin_classes = [
+        "bitflip", "byteset", "truncate", "extend", "inflate_field", "inflate_u64", "inflate_cbor", "inflate_bincode",
+        "overlong_cbor", "short_cbor", "splice", "chunk",
+    ];
+    let json_classes = [
+        "overlong_seq", "short_seq", "byte_range", "num_huge", "type_swap", "drop_key", "deep_nest", "long_array", "json_text",
+    ];
+    for m in &c.store.meta {
+        for enc in &m.encs {
+            if enc.codec == "json" {
+                for cls in json_classes {
+                    for _ in 0..per {
+                        let Some(t) = json_mutation(&mut r, cls, &m.json) else { continue };
+                        case += 1;
+                        let label = json!({"mut": cls, "pred": "na", "name": m.name});
+                        c.tasks_for(&mut tasks, case, "mut", m.ty, &Payload::Json(t.into_bytes()), "json", None, &label, false);
+                    }
+                }
+                // hex-level corruption of both string forms
+                for _ in 0..per {
+                    for src in [hex::encode(&enc.bytes), m.encs.first().map(|e| hex::encode(&e.bytes)).unwrap_or_default()] {
+                        case += 1;
+                        let t = text_mutation(&mut r, &src);
+                        let label = json!({"mut": "hex_text", "pred": "na", "name": m.name});
+                        c.tasks_for(&mut tasks, case, "mut", m.ty, &Payload::Text(t), "text", None, &label, false);
+                    }
+                }
+                continue;
+            }
+            for cls in bin_classes {
+                let applicable = match cls {
+                    "inflate_cbor" | "overlong_cbor" | "short_cbor" => enc.codec == "cbor",
+                    "inflate_bincode" => enc.codec == "bincode",
+                    "inflate_field" => enc.codec == "legacy",
+                    _ => true,
+                };
+                if !applicable {
+                    continue;
+                }
+                for _ in 0..per {
+                    let Some(b) = bin_mutation(&mut r, cls, enc, &pool) else { continue };
+                    case += 1;
+                    let label = json!({"mut": cls, "pred": "na", "name": m.name});
+                    c.tasks_for(&mut tasks, case, "mut", m.ty, &Payload::Bin(b), enc.codec, None, &label, false);
+                }
+            }
+        }
+    }
+    // message documents: mutate the whole document around an honest payload
+    for (ei, e) in c.es.iter().enumerate() {
+        let crate::entries::Form::Msg(kind) = e.form else { continue };
+        let Some(m) = c.store.meta.iter().find(|m| m.ty == e.ty) else { continue };
+        let enc = if e.json { m.encs.iter().find(|x| x.codec == "json") } else { m.encs.first() };
+        let Some(enc) = enc else { continue };
+        let doc: Value = serde_json::from_str(&c.docs.with(kind, &hex::encode(&enc.bytes))).unwrap();
+        for cls in json_classes {
+            for _ in 0..per {
+                let Some(t) = json_mutation(&mut r, cls, &doc) else { continue };
+                case += 1;
+                let input = t.into_bytes();
+                let ev = json!({
+                    "ev": "Decode", "case": case, "src": "mut", "ty": e.ty, "entry": e.name, "form": format!("msg:{kind}"),
+                    "codec": "doc", "len": input.len() as u64, "honest": false, "bad": "none", "cls": "fits",
+                    "mut": format!("doc_{cls}"), "pred": "na", "name": m.name,
+                });
+                tasks.push(Task { entry: ei, input, honest: -1, ev });
+            }
+        }
+    }
+    // deeply nested Merkle map proofs
+    let depths: Vec<usize> = args
+        .get("nest")
+        .map(|s| s.split(',').map(|x| x.parse().unwrap()).collect())
+        .unwrap_or_else(|| vec![1, 64, 2000, 10_000, 200_000]);
+    for d in depths {
+        if let Some(b) = nested_map_proof(c, d) {
+            case += 1;
+            let label = json!({"mut": "nest", "depth": d as u64, "pred": "na", "name": "mkmapproof0"});
+            c.tasks_for(&mut tasks, case, "mut", "MKMapProof", &Payload::Bin(b), "bincode", None, &label, d > 100_000);
+        }
+    }
+    tasks
 }
